@@ -130,6 +130,7 @@ _CE = {}
 
 
 def sym_count_errors():
+    xform.ACC_MERGE = True
     if "f" not in _CE:
         import moptipyapps.ttp.errors as er
         _CE["f"] = xform.transform(er.count_errors)
